@@ -777,7 +777,11 @@ def _case_sweep(case, ctx, buf):
     ctx.sample(case)
     stop_at = case.get("stop_at")
     with ctx.watch(case, 300):
-        stream, reader = im["make"]()
+        try:
+            stream, reader = im["make"]()
+        except Exception as e:
+            ctx.extra[f"well-formed-image-refused:{cls}:{type(e).__name__}"] += 1  # see _make
+            return
         model = StreamModel(im["disk"])
         n = 0
         # sweep prefix: one short read in the region of every table (drives the LRU caches to full / evicting)
